@@ -40,11 +40,12 @@ class ErrorFunction:
         return self.seen.get(k)
 
 
-def finite_difference_obligation(vtypes, m=2, second_state=True, override=None):
+def finite_difference_obligation(vtypes, m=2, second_state=True, override=None, unit=True):
     """override=(name, value): the edge carries its own value of a step-size constant the class defines (an edge kind with a coarser or
     finer step): the perturbation applied and the divisor must still be one and the same quantity."""
     def fn(it):
-        poses = [sym_pose(t, "x%d" % k, unit=True) for k, t in enumerate(vtypes)]
+        # unit=False: quaternions as they come out of a file with six decimals -- close to, but not exactly of, unit norm
+        poses = [sym_pose(t, "x%d" % k, unit=unit) for k, t in enumerate(vtypes)]
         verts = [it.construct("Vertex", [Poly.const(10 + k), poses[k]]) for k in range(len(vtypes))]
         edge = custom_edge(it, [Poly.const(10 + k) for k in range(len(vtypes))], None, None, verts)
         if override is not None:
@@ -111,7 +112,7 @@ def finite_difference_obligation(vtypes, m=2, second_state=True, override=None):
         if second_state:
             # the same edge at another state (poses overwritten in place): nothing learned in the first call may be reused
             for k, v in enumerate(verts):
-                q = sym_pose(vtypes[k], "y%d" % k, unit=True)
+                q = sym_pose(vtypes[k], "y%d" % k, unit=unit)
                 ga(v, "pose").data[:] = list(q.data)
             verify("second evaluation after the poses changed: ")
         if len(eps_seen) != 1:
@@ -249,6 +250,10 @@ def run(run_, pkg, tier):
         key = "C16/finite-difference/%s" % "+".join(vt)
         if run_.wants(key):
             tasks.append((key, "C16-finite-difference-template", finite_difference_obligation(vt), w))
+    for vt in (("PoseSE3",), ("PoseSE3", "PoseR3")):
+        key = "C16/finite-difference/%s[quaternion not exactly of unit norm]" % "+".join(vt)
+        if run_.wants(key):
+            tasks.append((key, "C16-finite-difference-template", finite_difference_obligation(vt, second_state=False, unit=False), w))
     for cls, vt, coefs in USER_CASES:
         key = "C16/user-edge/%s[%s]" % (cls, "+".join(vt))
         if run_.wants(key):
